@@ -275,6 +275,8 @@ func (p *errProv) retTerms(g *ssa.Function, idx int, depth int) []errTerm {
 }
 
 func checkC14(c *Ctx, r *Report) {
+	defer constructorsBuildRule(c, r)
+	defer pathNotKeptRule(c, r, "R14j")
 	r.Assumption("RegisterValidator and the front-end / flag packages are outside the property's observation points (they return decoder and I/O errors by design)")
 	r.Assumption("the dotted path in a message is right when contexts are right (C15); message text is not decided")
 	p := newErrProv(c)
@@ -998,5 +1000,105 @@ func walkerPlaceRule(c *Ctx, r *Report) {
 			}
 			r.Check(bad == "", "R14h", name, "place of "+g.Name(), c.Pos(ci.Pos()), "raised at the cursor of the walk", "the error is raised at "+bad+": its path is the name of the last step below the start of the walk, not the path of the setting (Int(\"a.zz.b\") reports 'zz'; through a child handle a setting that is not even on the way)")
 		}
+	}
+}
+
+// constructorsBuildRule (R14i): the raise* constructors are where an error gets the path and the source of the setting
+// the caller has in hand. Each of them therefore answers with an error it builds (a baseError / criticalError literal,
+// or the answer of another constructor) — never with an error it was given: one that "names its setting already"
+// names the place an inner lookup ended at, not the setting that holds the reference or the field being unpacked.
+func constructorsBuildRule(c *Ctx, r *Report) {
+	r.Rule("R14i", "every raise* constructor returns an error value it builds (a baseError / criticalError literal or another constructor's result), never one of its arguments", 28)
+	for _, fn := range c.SrcFuncs() {
+		if fn.Pkg != c.SSA[""] || fn.Parent() != nil || !strings.HasPrefix(fn.Name(), "raise") {
+			continue
+		}
+		if fn.Signature.Results().Len() != 1 {
+			continue
+		}
+		bad := ""
+		for _, ret := range Returns(fn) {
+			var visit func(v ssa.Value, depth int)
+			seen := map[ssa.Value]bool{}
+			visit = func(v ssa.Value, depth int) {
+				if seen[v] || depth > 8 {
+					return
+				}
+				seen[v] = true
+				switch x := v.(type) {
+				case *ssa.Phi:
+					for _, e := range x.Edges {
+						visit(e, depth+1)
+					}
+				case *ssa.MakeInterface:
+					if n := namedOf(x.X.Type()); n != nil && (n.Obj().Name() == "baseError" || n.Obj().Name() == "criticalError") {
+						return
+					}
+					bad = "a value of type " + typeStr(x.X.Type()) + " at " + c.Pos(ret.Pos())
+				case *ssa.ChangeInterface:
+					visit(x.X, depth+1)
+				case *ssa.Call:
+					if g := x.Call.StaticCallee(); g != nil && g.Pkg == fn.Pkg && strings.HasPrefix(g.Name(), "raise") {
+						return
+					}
+					bad = "the result of " + x.Call.String() + " at " + c.Pos(ret.Pos())
+				default:
+					bad = describeVals([]ssa.Value{v}) + " at " + c.Pos(ret.Pos())
+				}
+			}
+			visit(RetVal(ret, 0), 0)
+		}
+		r.Check(bad == "", "R14i", c.FnName(fn), "answers with an error it builds", c.Pos(fn.Pos()), "baseError / criticalError literal or another constructor",
+			"the constructor can answer with an error it did not build ("+bad+"): path, source and class of that error are those of the place it came from, not of the setting this call reports")
+	}
+}
+
+// pathNotKeptRule (R14j, R15o): the path an error names — and the one Path() and FlattenedKeys answer with — is
+// rendered from the parent chain at the moment it is asked for. Removing a list entry renumbers the ones behind it,
+// SetChild and Merge re-parent nodes: a path kept from an earlier rendering (a memo in the node, dropped only for the
+// node that moved itself) is stale for everything below the node that moved. The producers context.path / pathOf and
+// what they call inside the package therefore write no memory but their own locals.
+func pathNotKeptRule(c *Ctx, r *Report, rule string) {
+	r.Rule(rule, "context.path and context.pathOf (with the package functions they call) write nothing but locals: a path is rendered from the parent chain on every call, never kept in a node", 2)
+	for _, mn := range []string{"path", "pathOf"} {
+		root := c.Method("", "context", mn)
+		seen := map[*ssa.Function]bool{root: true}
+		work := []*ssa.Function{root}
+		bad := ""
+		for len(work) > 0 {
+			f := work[len(work)-1]
+			work = work[:len(work)-1]
+			Instrs(f, true, func(in ssa.Instruction) {
+				switch x := in.(type) {
+				case *ssa.Store:
+					addr := x.Addr
+					for i := 0; i < 8; i++ {
+						if fa, ok := addr.(*ssa.FieldAddr); ok {
+							addr = fa.X
+						} else if ia, ok := addr.(*ssa.IndexAddr); ok {
+							addr = ia.X
+						} else {
+							break
+						}
+					}
+					if _, isAlloc := addr.(*ssa.Alloc); !isAlloc { // an object made in this call (a literal, the varargs array)
+						bad = "store at " + c.Pos(x.Pos()) + " in " + c.FnName(f)
+					}
+				case *ssa.MapUpdate:
+					if _, isMake := x.Map.(*ssa.MakeMap); !isMake {
+						bad = "map update at " + c.Pos(x.Pos()) + " in " + c.FnName(f)
+					}
+				case ssa.CallInstruction:
+					for _, g := range c.Callees(x) {
+						if g.Pkg == root.Pkg && !seen[g] && len(seen) < 40 {
+							seen[g] = true
+							work = append(work, g)
+						}
+					}
+				}
+			})
+		}
+		r.Check(bad == "", rule, c.FnName(root), "renders from the parent chain", c.Pos(root.Pos()), fmt.Sprintf("no write outside locals in %d function(s)", len(seen)),
+			"rendering a path writes memory ("+bad+"): a path kept from an earlier call is stale for every setting below a node that was renumbered by Remove or re-parented by SetChild / Merge, and errors, Path() and FlattenedKeys then name settings that are not there")
 	}
 }
